@@ -28,5 +28,30 @@ CHECKS = [
          text="All 2-4 container sets of the memory-profile alphabet with overcommit (ties, several victims, finished and zero-usage containers in the crossing tick): the killed set must be an admissible victim set (descending score, stop as soon as usage fits, ties free) computed from model demand.",
          note=TRUST),
 ]
+
+T_F5 = "exhaustive enumeration of a scenario alphabet (arrivals x priorities x DAG shapes x profiles x pools x mode x tick rate) through the real scheduler + real executor, per-round policy predicates and lock-step reference executor"
+CHECKS += [
+    dict(property_id="C01", technique="exhaustive enumeration of all DAGs on <=5/6 nodes (iteration) + deviation-bounded exploration of admissible and inadmissible command sequences + exhaustive scheduler scenario spaces; transition-log ordering monitor",
+         text="Every DAG on <=5 (quick) / <=6 (thorough, 33 867) operators iterated through the real Pipeline; F1 command sequences incl. child-before-parent packings on chain/diamond/join/fork; all five shipped schedulers on all six DAG shapes with OOM->retry and preemption->resume. Every ->RUNNING in the transition log must be preceded by ->COMPLETED of every parent; inadmissible starts must raise.",
+         note=TRUST),
+    dict(property_id="C06", technique="exhaustive enumeration of a workload/config alphabet through the REAL run_simulator; independent recount from recorded arrivals, decisions, results and the transition log",
+         text="~190k (quick) real run_simulator runs: 0-3 scripted pipelines (incl. none, after-the-end arrivals, never-fitting work), all priority assignments, durations 0.4/1/8/20 ticks, 8 scheduler configurations, tick rates 1,2(,10): every returned statistic recomputed; completion declared exactly once in the tick of the last ->COMPLETED; uncontended chains finish in exactly their summed ticks.",
+         note="Trusted: the recount code in mc/families/f6.py (own percentile), class-level wrappers around Scheduler/Executor entry points. Container p99 is not recounted (not in the statement)."),
+    dict(property_id="C08", technique="exhaustive enumeration of configuration grids through the real run_simulator (real generator) and of corner workload alphabets through every shipped scheduler in lock-step; any exception or inadmissible decision is a violation",
+         text="All 66 probability triples, pools 1-3 x cpus 1..64 x ram 0.5..256 x both container modes, durations from 0.4 tick to 60 s at tick rates 1..100000, for naive/priority/priority-pool/overbook/starter(eudoxia init -s); plus zero-tick operators, growing memory and never-fitting operators on 1-CPU / sub-GB pools and all six DAG shapes.",
+         note="Known finding F-C08-priority-pool-single-op is reported as KNOWN-FINDING (exact signature + predicate). Generator runs use seeds 0(,1,2) only."),
+    dict(property_id="C12", technique=T_F5,
+         text="priority on 12-20 pool configurations (1-CPU pools so that preemption happens, write-outs of 1-8 ticks) and priority-pool: per round - no lower class assigned while a higher-class ready pending operator waits, FIFO of first containers per class, work conservation, suspension only of running non-query containers at a model-confirmed boundary while query work waits, at most one per waiting query job; resumed work is offered again (via work conservation).",
+         note=TRUST + " FAILED operators are outside the order/conservation clauses (the statement says pending)."),
+    dict(property_id="C16", technique=T_F5,
+         text="priority-pool on two pools over all priority mixes/arrival patterns/DAG shapes with OOM->retry chains: pool 0 iff query/interactive, pool 1 iff batch for firsts and retries, never a suspension, retry = exactly the unfinished operators, doubled request reaching half of the pool is never assigned.",
+         note=TRUST),
+    dict(property_id="C17", technique=T_F5,
+         text="naive on 1-3 pools, both container modes: <=1 container per pool per round with exactly the pool's free CPU/RAM, first containers in arrival order, never suspends, never assigns a pipeline with a failed operator, single ready operator per container when multi-operator containers are off.",
+         note=TRUST),
+    dict(property_id="C18", technique=T_F5,
+         text="overbook with overcommit on 1-2 pools x 1-3 CPUs x 4/8 GB with pool-killer-triggering profiles: each assignment = one ready operator, 1 CPU, RAM = pool capacity; never more containers than CPUs; no ready operator of a live pipeline waits while a CPU is free after a triggered round; no assignment after 3 failed containers.",
+         note=TRUST),
+]
 _PENDING = "check not built yet in this session; will be claimed when its driver exists"
 NOT_APPLICABLE = [dict(property_id=f"C{i:02d}", reason=_PENDING) for i in range(1, 21) if f"C{i:02d}" not in {c["property_id"] for c in CHECKS}]
